@@ -30,6 +30,13 @@ SBRun(order, i, mem, pc, r) ==
        SBRun(order, i + 1, [mem EXCEPT ![ins.c] = e.nv], [pc EXCEPT ![t] = @ + 1], IF ins.op = "get" THEN [r EXCEPT ![t] = e.res[1]] ELSE r)
 SBOutcomes == { SBRun(o, 1, [x |-> <<0>>, y |-> <<0>>], <<1, 1>>, <<-1, -1>>) : o \in SBOrders }
 TrSb == /\ IsEvent("sb") /\ Consume /\ <<Ev.r1, Ev.r2>> \in SBOutcomes /\ UNCHANGED avars
-TNext == TrEpoch \/ TrCall \/ DoLin \/ TrRet \/ TrMp \/ TrSb
+(* read-modify-write litmus: 2-4 threads each made ONE call on the same fresh word at (nearly) the same moment, nothing was logged in
+   between.  The recorded results and the final word must be those of some order of the indivisible effects. *)
+Perms(n) == { p \in [1..n -> 1..n] : \A i, j \in 1..n : i # j => p[i] # p[j] }
+RECURSIVE RmwRun(_, _, _, _)
+RmwRun(p, i, v, ev) == IF i > Len(p) THEN v = ev.final
+                       ELSE LET o == ev.ops[p[i]]  e == Effect(v, o.op, o.a, o.b) IN e.res = o.res /\ e.ok = o.ok /\ RmwRun(p, i + 1, e.nv, ev)
+TrRmw == /\ IsEvent("rmw") /\ Consume /\ (\E p \in Perms(Len(Ev.ops)) : RmwRun(p, 1, Ev.init, Ev)) /\ UNCHANGED avars
+TNext == TrEpoch \/ TrCall \/ DoLin \/ TrRet \/ TrMp \/ TrSb \/ TrRmw
 TSpec == TInit /\ [][TNext]_tv
 ====
